@@ -466,6 +466,7 @@ class ParserText(ParserBase):
         try:
             value = self._parsable[self._parsed_length:]
             date_time = dateutil.parser.parse(six.ensure_text(value, self._encoding))
+            date_time.utcoffset()  # dateutil accepts '+9900', datetime raises ValueError for offsets >= 24 hours
         except (ValueError, ArithmeticError) as e:
             six.raise_from(InvalidValue(value, type(self), 'value'), e)
 
